@@ -50,7 +50,7 @@ pub fn show(h: &[Ev]) -> String {
         .map(|e| match e {
             Ev::P(d, i) => format!("P(+{}ns,state{})", d, i),
             Ev::N(_) => "N".to_string(),
-            Ev::Er(_) => "E1".to_string(),
+            Ev::Er(_) => "E".to_string(),
             Ev::Set(i) => format!("set({:?})", TARGETS[*i]),
             Ev::Follow(i) => format!("followed:={:?}", TARGETS[*i]),
         })
@@ -162,7 +162,7 @@ pub fn run_real(init: Command, follow: bool, h: &[Ev], t0: i64) -> Vec<(u32, Obs
     }
     let mut t = t0;
     let mut out = Vec::with_capacity(h.len());
-    for e in h {
+    for (k, e) in h.iter().enumerate() {
         let u = match e {
             Ev::P(d, i) => {
                 t += d;
@@ -177,7 +177,7 @@ pub fn run_real(init: Command, follow: bool, h: &[Ev], t0: i64) -> Vec<(u32, Obs
             }
             Ev::Er(d) => {
                 t += d;
-                inp.borrow_mut().next = Err(E1);
+                inp.borrow_mut().next = Err(err_at(k));
                 obs_unit(&pid.update())
             }
             Ev::Set(i) => obs_unit(&pid.set(TARGETS[*i])),
@@ -206,6 +206,7 @@ pub fn check_history(init: Command, follow: bool, h: &[Ev], e: &mut Eng, meta: b
     let mut r = Ref { cmd: init, followed: if follow { Some(init) } else { None }, rec: None, err: false, err_open: false };
     let mut t = t0;
     let mut samples_since_reset = 0;
+    let mut last_err = 0usize; // position of the most recent error event (its value depends on the position)
     let mut nontrivial = false;
     let (mut n_exact, mut n_tol) = (0i128, 0i128);
     for (k, ev) in h.iter().enumerate() {
@@ -237,7 +238,8 @@ pub fn check_history(init: Command, follow: bool, h: &[Ev], e: &mut Eng, meta: b
                 r.rec = None;
                 r.err = true;
                 r.err_open = false;
-                exp_u = Some(3);
+                last_err = k;
+                exp_u = Some(obs_unit(&Err(err_at(k))));
             }
             Ev::Set(i) => r.set(TARGETS[*i]),
             Ev::Follow(i) => {
@@ -252,8 +254,8 @@ pub fn check_history(init: Command, follow: bool, h: &[Ev], e: &mut Eng, meta: b
         let ok_u = exp_u.map(|x| x == u).unwrap_or(true);
         let ok_g = match exp {
             Exp::None => got.is_none(),
-            Exp::Err => got == Obs::err(&E1),
-            Exp::ErrOrNone => got.is_none() || got == Obs::err(&E1),
+            Exp::Err => got == Obs::err(&err_at(last_err)),
+            Exp::ErrOrNone => got.is_none() || got == Obs::err(&err_at(last_err)),
             Exp::Some(tt, v) => {
                 if v.robust {
                     n_exact += 1;
@@ -288,8 +290,8 @@ pub fn check_history(init: Command, follow: bool, h: &[Ev], e: &mut Eng, meta: b
                     r.cmd,
                     match exp {
                         Exp::None => "absent".to_string(),
-                        Exp::Err => "Err(E1)".to_string(),
-                        Exp::ErrOrNone => "Err(E1) or absent".to_string(),
+                        Exp::Err => format!("Err({:?})", err_at(last_err)),
+                        Exp::ErrOrNone => format!("Err({:?}) or absent", err_at(last_err)),
                         Exp::Some(tt, v) => format!("{} at time {}", v.show(), tt),
                     }
                 )
